@@ -16,7 +16,9 @@ import (
 )
 
 // C13 — coinomics mint. Ops (shared with lean/HaqqModel/Driver/C13.lean):
-//   reset enabled rewardCoeffRaw prevTS maxSupply | enable 0/1 | setmax n | blk timeMs bonded supply | year unixSeconds
+//
+//	reset enabled rewardCoeffRaw prevTS maxSupply | enable 0/1 | setmax n | blk timeMs bonded supply | year unixSeconds
+//
 // The real MintAndAllocate / EndBlocker run on a Keeper built over the application's real store, codec,
 // param subspace and account keeper, with recording stubs for the bank and staking keepers, so bonded,
 // supply and max supply range over all magnitudes.  "realblk" cases run the application's own keeper
@@ -42,7 +44,7 @@ type c13Bank struct {
 }
 
 func (b *c13Bank) GetBalance(sdk.Context, sdk.AccAddress, string) sdk.Coin { return sdk.Coin{} }
-func (b *c13Bank) GetAllBalances(sdk.Context, sdk.AccAddress) sdk.Coins     { return nil }
+func (b *c13Bank) GetAllBalances(sdk.Context, sdk.AccAddress) sdk.Coins    { return nil }
 func (b *c13Bank) SendCoinsFromModuleToAccount(sdk.Context, string, sdk.AccAddress, sdk.Coins) error {
 	return fmt.Errorf("unexpected SendCoinsFromModuleToAccount")
 }
@@ -69,17 +71,21 @@ func (b *c13Bank) MintCoins(_ sdk.Context, name string, amt sdk.Coins) error {
 	b.supply.Add(b.supply, a)
 	return nil
 }
-func (b *c13Bank) BurnCoins(sdk.Context, string, sdk.Coins) error { return fmt.Errorf("unexpected burn") }
-func (b *c13Bank) HasSupply(sdk.Context, string) bool             { return true }
+func (b *c13Bank) BurnCoins(sdk.Context, string, sdk.Coins) error {
+	return fmt.Errorf("unexpected burn")
+}
+func (b *c13Bank) HasSupply(sdk.Context, string) bool { return true }
 func (b *c13Bank) GetSupply(_ sdk.Context, denom string) sdk.Coin {
 	return sdk.NewCoin(denom, sdkmath.NewIntFromBigInt(b.supply))
 }
 
 type c13Staking struct{ bonded *big.Int }
 
-func (s *c13Staking) BondedRatio(sdk.Context) sdk.Dec           { return sdk.ZeroDec() }
+func (s *c13Staking) BondedRatio(sdk.Context) sdk.Dec            { return sdk.ZeroDec() }
 func (s *c13Staking) StakingTokenSupply(sdk.Context) sdkmath.Int { return sdkmath.ZeroInt() }
-func (s *c13Staking) TotalBondedTokens(sdk.Context) sdkmath.Int  { return sdkmath.NewIntFromBigInt(s.bonded) }
+func (s *c13Staking) TotalBondedTokens(sdk.Context) sdkmath.Int {
+	return sdkmath.NewIntFromBigInt(s.bonded)
+}
 
 func c13Gen(r *rand.Rand, tier string) []Case {
 	n, maxBlocks := 300, 12
